@@ -164,6 +164,39 @@ fn c11_t_legacy_11_skip_0_0() {
     legacy(true, 0, 0);
 }
 
+/// count byte 0 means 256 entries: a packet that declares 256 colours but carries one is short input (an error
+/// value), at skip 0 and at a non-zero skip alike -- it is never an empty or one-colour palette
+fn legacy_count_zero(kind11: bool, skip: u8) {
+    let mut buf: [u8; 7] = kani::any();
+    buf[0] = 1;
+    buf[1] = 0;
+    buf[2] = skip;
+    buf[3] = 0;
+    kani::assume(buf[4] < 64 && buf[5] < 64 && buf[6] < 64);
+    let r = if kind11 { parse_old_chunk_11(&buf) } else { parse_old_chunk_04(&buf) };
+    assert!(r.is_err(), "count byte 0 declares 256 entries; one entry's worth of bytes is a short read");
+    kani::cover!(true);
+    core::mem::forget(r);
+}
+#[kani::proof]
+#[kani::unwind(5)]
+#[kani::stub(alloc::fmt::format, crate::vklib::empty_format)]
+fn c11_q_legacy_04_count_zero_at_skip_2() {
+    legacy_count_zero(false, 2);
+}
+#[kani::proof]
+#[kani::unwind(5)]
+#[kani::stub(alloc::fmt::format, crate::vklib::empty_format)]
+fn c11_q_legacy_11_count_zero_at_skip_2() {
+    legacy_count_zero(true, 2);
+}
+#[kani::proof]
+#[kani::unwind(5)]
+#[kani::stub(alloc::fmt::format, crate::vklib::empty_format)]
+fn c11_t_legacy_04_count_zero_at_skip_0() {
+    legacy_count_zero(false, 0);
+}
+
 /// indexed pixels against a sparse palette {0, 2, 5}: validation succeeds iff every index is a palette key; no
 /// palette at all is an error
 #[kani::proof]
